@@ -89,17 +89,30 @@ def build_problem(case: dict) -> dict:
             c[b, :] = c[b, 0]
     Q = np.zeros((Bn, T, n, n))
     p = np.zeros((Bn, T, n))
+    mixed = bool(case.get("mixed"))
+    # mixed-regime batch: item 0 is the all-zero problem (x0 = p = 0), item 1 large and ill-conditioned, item 2 ordinary
+    reg_m = [0.0, 1e3, 1.0]
+    reg_c = [1.0, 1e6, case["condQ"]]
     for b in range(Bn):
+        condb = reg_c[b % 3] if mixed else case["condQ"]
+        if mixed and case["dtype"] == "float32":
+            condb = min(condb, 10)
         for t in range(T):
             if case["qshape"] in ("q3", "q3p2") and t > 0:
                 Q[b, t] = Q[b, 0]
             else:
-                Q[b, t] = _spd(rs, n, case["condQ"], case["qscale"])
+                Q[b, t] = _spd(rs, n, condb, case["qscale"])
             if case["qshape"] in ("p2", "q3p2") and t > 0:
                 p[b, t] = p[b, 0]
             else:
                 p[b, t] = rs.standard_normal(n) * case["pscale"]
     x0 = rs.standard_normal((Bn, ns)) * case["x0scale"]
+    if mixed:
+        for b in range(Bn):
+            x0[b] *= reg_m[b % 3]
+            p[b] *= reg_m[b % 3]
+            if not shared:
+                c[b] *= reg_m[b % 3]
     dt = getattr(torch, case["dtype"])
     rnd = lambda a: torch.tensor(a, dtype=torch.float64).to(dt).to(torch.float64).numpy()
     Qr = rnd(Q)
@@ -200,8 +213,12 @@ def make_lqr(case: dict, prob: dict, system):
     p = torch.tensor(prob["p"], dtype=dt)
     if case["qshape"] in ("q3", "q3p2"):
         Q = Q[:, 0]
+        if case.get("qexpand"):       # the same matrix for every step, given as an expanded (stride-0) 4-D view
+            Q = Q.unsqueeze(1).expand(-1, case["T"], -1, -1)
     if case["qshape"] in ("p2", "q3p2"):
         p = p[:, 0]
+        if case.get("qexpand"):
+            p = p.unsqueeze(1).expand(-1, case["T"], -1)
     return P.module.LQR(system, Q, p, case["T"])
 
 
@@ -474,3 +491,124 @@ def parse_mpc_reply(rep: str, ns: int, nc: int, T: int):
     x = v[:(T + 1) * ns].reshape(T + 1, ns)
     u = v[(T + 1) * ns:(T + 1) * ns + T * nc].reshape(T, nc)
     return niter, pc, x, u, float(v[-1])
+
+
+# ----------------------------------------------------------------------------- hardening helpers
+
+def refresh_from_system(case: dict, prob: dict, system) -> dict:
+    """re-read A, B, c1 from the system's buffers (after the caller updated its tensors in place)"""
+    bufs = dict(system.named_buffers())
+    Bn, L = case["B"], prob["L"]
+    A, Bm, c1 = bufs["_A"].detach().double().numpy(), bufs["_B"].detach().double().numpy(), bufs.get("_c1")
+    new = dict(prob)
+    if prob["tv"]:
+        new["A"], new["B"] = A.copy(), Bm.copy()
+        if c1 is None:
+            new["c"] = np.zeros_like(prob["c"])
+        elif case["sys"] == "ltvc":
+            new["c"] = c1.detach().double().numpy().copy()
+        else:
+            new["c"] = np.repeat(c1.detach().double().numpy()[:, None, :], L, axis=1)
+    elif case["sys"] == "lti_shared":
+        new["A"] = np.broadcast_to(A, (Bn, 1) + A.shape).copy()
+        new["B"] = np.broadcast_to(Bm, (Bn, 1) + Bm.shape).copy()
+        new["c"] = np.zeros_like(prob["c"]) if c1 is None else np.broadcast_to(c1.detach().double().numpy(), (Bn, 1, A.shape[-1])).copy()
+    else:
+        new["A"], new["B"] = A[:, None].copy(), Bm[:, None].copy()
+        new["c"] = np.zeros_like(prob["c"]) if c1 is None else c1.detach().double().numpy()[:, None].copy()
+    return new
+
+
+def item_problem(case: dict, prob: dict, b: int):
+    """the sub-problem of batch item b as a batch of one"""
+    cb = dict(case, B=1, mixed=False)
+    pb = dict(prob)
+    for k in ("A", "B", "c", "Q", "p", "x0"):
+        pb[k] = prob[k][b:b + 1].copy()
+    return cb, pb
+
+
+def as_view(t: torch.Tensor, mode: str):
+    """the same values as `t` presented as a view of a larger / strided buffer; returns (view, base)"""
+    if mode == "noncontig":          # every second element of the last axis
+        base = torch.full(t.shape[:-1] + (2 * t.shape[-1],), 7.5, dtype=t.dtype)
+        v = base[..., ::2]
+        v.copy_(t)
+        return v, base
+    if mode == "slice":              # interior block of a larger buffer
+        shp = (t.shape[0] + 2,) + tuple(t.shape[1:-1]) + (t.shape[-1] + 3,)
+        base = torch.full(shp, -3.25, dtype=t.dtype)
+        v = base[1:1 + t.shape[0], ..., 2:2 + t.shape[-1]]
+        v.copy_(t)
+        return v, base
+    if mode == "transposed" and t.ndim >= 3:   # last two axes stored swapped
+        base = torch.empty(t.shape[:-2] + (t.shape[-1], t.shape[-2]), dtype=t.dtype)
+        v = base.transpose(-1, -2)
+        v.copy_(t)
+        return v, base
+    return t, t
+
+
+def riccati_np(A, B, c, Q, p, x0, ubar):
+    """independent float64 Riccati recursion (delta formulation around the rolled-out nominal): K (T,nc,ns), k (T,nc)"""
+    T, ns, nc = Q.shape[0], A.shape[-1], B.shape[-1]
+    ub = np.zeros((T, nc)) if ubar is None else np.asarray(ubar, dtype=np.float64)
+    xb = np.zeros((T, ns))
+    xb[0] = x0
+    for t in range(T - 1):
+        xb[t + 1] = A[t] @ xb[t] + B[t] @ ub[t] + c[t]
+    K, k = np.zeros((T, nc, ns)), np.zeros((T, nc))
+    V, v = np.zeros((ns, ns)), np.zeros(ns)
+    for t in range(T - 1, -1, -1):
+        F = np.concatenate([A[t], B[t]], axis=1)
+        pb = Q[t] @ np.concatenate([xb[t], ub[t]]) + p[t]
+        Qt = Q[t] + F.T @ V @ F
+        qt = pb + F.T @ v
+        Qxx, Qxu, Qux, Quu = Qt[:ns, :ns], Qt[:ns, ns:], Qt[ns:, :ns], Qt[ns:, ns:]
+        K[t] = -np.linalg.solve(Quu, Qux)
+        k[t] = -np.linalg.solve(Quu, qt[ns:])
+        V = Qxx + Qxu @ K[t]
+        V = (V + V.T) / 2
+        v = qt[:ns] + Qxu @ k[t]
+    return K, k
+
+
+def gains_tolerance(r: "Ref", ubar, seed: int):
+    """per-step error scales of (K_t, k_t): change under two random 1e-8 relative perturbations of all data
+    (a backward-stable recursion is allowed eps-sized ones) plus the size of the gains themselves"""
+    rs = np.random.RandomState(seed % (2 ** 32))
+    d = 1e-8
+    K0, k0 = riccati_np(r.A, r.B, r.c, r.Q, r.p, r.x0, ubar)
+    sK, sk = np.zeros(r.T), np.zeros(r.T)
+    for _ in range(2):
+        pert = lambda a: a * (1 + d * rs.uniform(-1, 1, a.shape))
+        Qp = pert(r.Q)
+        Qp = (Qp + np.swapaxes(Qp, -1, -2)) / 2
+        K1, k1 = riccati_np(pert(r.A), pert(r.B), pert(r.c), Qp, pert(r.p), pert(r.x0), None if ubar is None else pert(np.asarray(ubar)))
+        sK = np.maximum(sK, np.abs(K1 - K0).reshape(r.T, -1).max(axis=1) / d)
+        sk = np.maximum(sk, np.abs(k1 - k0).reshape(r.T, -1).max(axis=1) / d)
+    return sK + np.abs(K0).reshape(r.T, -1).max(axis=1), sk + np.abs(k0).reshape(r.T, -1).max(axis=1)
+
+
+def expected_iterations(costs, steps: int, patience: int, decreasing: float, tol: float):
+    """documented `ReduceToBason` semantics replayed on the recorded costs of the inner solves (independent of the
+    code): (#iterations the loop must have run, patience counter afterwards, fragile?) — fragile when a float
+    comparison is within rounding of its threshold"""
+    max_steps = steps - 1            # MPC.__init__: n-1 loops, 1 loop with gradient
+    last, pc, n, frag = float("inf"), 0, 0, False
+    for c in costs:
+        n += 1
+        stop = c < tol or n >= max_steps
+        frag |= abs(c - tol) <= 1e-9 * (1 + abs(c))
+        with np.errstate(all="ignore"):
+            ratio = (np.float64(last) - np.float64(c)) / np.float64(c)
+        slow = bool(ratio < decreasing)
+        if np.isfinite(ratio):
+            frag |= abs(float(ratio) - decreasing) <= 1e-7 * (1 + abs(decreasing))
+        pc = pc + 1 if slow else 0
+        last = c
+        if pc >= patience:
+            stop = True
+        if stop:
+            break
+    return n, pc, frag
